@@ -38,9 +38,16 @@ fn main() {
         return;
     }
     if args[1] == "bless" {
-        let network = std::env::var("VERIF_NETWORK").unwrap_or_else(|_| "regtest".to_string());
-        driver::configure(&network);
-        props::c02::bless(&network);
+        for network in ["regtest", "signet", "mainnet"] {
+            // one child per network: the configuration is process-global
+            if std::env::var("VERIF_BLESS_CHILD").is_ok() {
+                let network = std::env::var("VERIF_NETWORK").unwrap_or_else(|_| "regtest".to_string());
+                driver::configure(&network);
+                props::c02::bless(&network);
+                break;
+            }
+            let _ = std::process::Command::new(std::env::current_exe().unwrap()).arg("bless").env("VERIF_BLESS_CHILD", "1").env("VERIF_NETWORK", network).status();
+        }
         driver::cleanup_scratch();
         return;
     }
